@@ -20,6 +20,7 @@ expressions of the estimator / bound functions extracted from MIR and evaluated 
   C01.U   HIP accumulators advance by k / (sum of register probabilities) evaluated before the register update
   C01.E   theta emptiness is a stored flag cleared on every update that hashed an item (not derived from the retained count)
   C01.S   the serialized image carries the estimator state (imported from the C11 writer->reader co-simulation for HLL, CPC, theta)
+  C01.M   the state the estimators read is maintained correctly under update and merge (imported: structural rules of C02-C06)
 """
 import json
 import math
@@ -703,6 +704,26 @@ def run(prog, ctx):
     except Exception as ex:   # the imported pack failing must not take C01 down with a false alarm
         res.extra.setdefault("undecided", []).append("C01.S could not run the C11 co-simulation: %r" % (ex,))
     res.rule("C01.S", n_sx, 0, "writer->reader co-simulated states of HLL/CPC/theta (imported from C11)")
+
+    # ------------------------------------------------------------------ C01.M the state the estimators read is the right state
+    # (register maxima, union results, KMV set, coupon matrix): the structural rules of C02-C06 are necessary conditions for an
+    # unbiased estimate after streaming / merging, so their violations are re-issued here
+    import importlib
+    n_m = 0
+    for pack in ("C02", "C03", "C04", "C05", "C06"):
+        try:
+            r = importlib.import_module("analyzer.rules." + pack).run(prog, dict(ctx))
+        except Exception as ex:
+            res.extra.setdefault("undecided", []).append("C01.M could not run %s: %r" % (pack, ex))
+            continue
+        n_m += sum(v.get("instances", 0) for v in r.rules.values())
+        for v in r.violations:
+            if "anchor-lost" not in v.key:
+                res.violate("C01.M", "C01.M|" + v.key, "sketch state feeding the estimator can be wrong: " + v.message, getattr(v, "fn", None), getattr(v, "span", None))
+        res.obligations += 1
+        if not [v for v in r.violations if "anchor-lost" not in v.key]:
+            res.discharged += 1
+    res.rule("C01.M", n_m, 60, "structural rule instances of C02-C06 (imported)")
 
     res.functions_analysed = len(analysed)
     res.entry_points = sorted(analysed)[:40]
